@@ -1,4 +1,5 @@
 import PytezosModel.Proofs.InterpSoundEval
+set_option linter.unusedSectionVars false   -- `[Mode]` is a section variable of every lemma here; some do not use it
 /-! Progress half of type soundness, groundwork.
 
 * `Res.Safe P r`: the outcome `r` is not stuck (and not `offguard`), and if it is a result, the result satisfies `P` —
@@ -8,6 +9,7 @@ import PytezosModel.Proofs.InterpSoundEval
   this is what "a well-typed stack" means for the rules MEM / GET / UPDATE, which apply to well-formed collections only.
 * canonical forms: a well-formed value of a given type has the corresponding shape. -/
 namespace Interp
+variable [Mode]
 open Typing
 
 /-- `r` is not stuck, not outside the guard, and a result of `r` satisfies `P` -/
